@@ -176,6 +176,7 @@ inductive Val where
   | bool (b : Bool)
   | arr (a : List Int)
   | barr (a : List Bool)
+  | arr2 (a : List (List Int))
   | tup (vs : List Val)
   deriving Repr, Inhabited
 
@@ -190,6 +191,9 @@ def Val.asArr? : Val → Option (List Int)
   | _ => Option.none
 def Val.asBArr? : Val → Option (List Bool)
   | .barr a => some a
+  | _ => Option.none
+def Val.asArr2? : Val → Option (List (List Int))
+  | .arr2 a => some a
   | _ => Option.none
 def Val.asOptArr? : Val → Option (Option (List Int))
   | .arr a => some (some a)
